@@ -54,13 +54,19 @@ pub enum Kind {
 }
 
 #[derive(Clone, Debug, Serialize, Deserialize, JsonSchema)]
+pub struct ExplicitHeader {
+    pub name: String,
+    pub value: String,
+}
+
+#[derive(Clone, Debug, Serialize, Deserialize, JsonSchema)]
 pub struct RespSpec {
     pub kind: Kind,
     pub value: Value,
     pub typed: RespBody,
     pub declared: DeclaredHeaders,
-    /// explicit headers added with headers_mut(): (name, value) in order
-    pub explicit: Vec<(String, String)>,
+    /// explicit headers added with headers_mut(), in order
+    pub explicit: Vec<ExplicitHeader>,
     pub location: String,
 }
 
@@ -155,7 +161,7 @@ pub fn resp_spec() -> impl Strategy<Value = RespSpec> {
             value,
             typed,
             declared,
-            explicit: explicit.into_iter().map(|(n, v)| (n.to_string(), v)).collect(),
+            explicit: explicit.into_iter().map(|(n, v)| ExplicitHeader { name: n.to_string(), value: v }).collect(),
             location,
         })
 }
@@ -179,8 +185,8 @@ fn expected_headers(s: &RespSpec) -> BTreeMap<String, Vec<String>> {
     // explicit headers override declared ones of the same name; several
     // explicit values for one name are all sent
     let mut explicit: BTreeMap<String, Vec<String>> = BTreeMap::new();
-    for (n, v) in &s.explicit {
-        explicit.entry(n.to_ascii_lowercase()).or_default().push(v.clone());
+    for h in &s.explicit {
+        explicit.entry(h.name.to_ascii_lowercase()).or_default().push(h.value.clone());
     }
     for (n, vs) in explicit {
         m.insert(n, vs);
@@ -200,9 +206,9 @@ enum Built {
 
 fn with_headers(s: &RespSpec) -> Option<HttpResponseHeaders<HttpResponseOk<RespBody>, DeclaredHeaders>> {
     let mut r = HttpResponseHeaders::new(HttpResponseOk(s.typed.clone()), s.declared.clone());
-    for (n, v) in &s.explicit {
-        let name = http::HeaderName::from_bytes(n.as_bytes()).ok()?;
-        let val = http::HeaderValue::from_str(v).ok()?;
+    for h in &s.explicit {
+        let name = http::HeaderName::from_bytes(h.name.as_bytes()).ok()?;
+        let val = http::HeaderValue::from_str(&h.value).ok()?;
         r.headers_mut().append(name, val);
     }
     Some(r)
@@ -306,7 +312,7 @@ fn classify(s: &RespSpec, st: &mut Stats) -> bool {
     st.count(&format!("kind:{}", kind_name(&s.kind)));
     match s.kind {
         Kind::WithHeaders => {
-            let collide = s.explicit.iter().any(|(n, _)| n.eq_ignore_ascii_case("x-verif-a") || n.eq_ignore_ascii_case("x-verif-b"));
+            let collide = s.explicit.iter().any(|h| h.name.eq_ignore_ascii_case("x-verif-a") || h.name.eq_ignore_ascii_case("x-verif-b"));
             if collide {
                 st.count("explicit_collides_with_declared");
             }
@@ -416,6 +422,10 @@ async fn vr_tempredirect(_: Rq, b: TypedBody<RespSpec>) -> Result<HttpResponseTe
 #[endpoint { method = POST, path = "/r/withheaders" }]
 async fn vr_withheaders(_: Rq, b: TypedBody<RespSpec>) -> Result<HttpResponseHeaders<HttpResponseOk<RespBody>, DeclaredHeaders>, HttpError> {
     with_headers(&b.into_inner()).ok_or_else(|| bad("explicit header not representable"))
+}
+
+pub fn resp_api_pub() -> ApiDescription<()> {
+    resp_api()
 }
 
 fn resp_api() -> ApiDescription<()> {
